@@ -30,3 +30,13 @@ Definition lua_module_libs : list string :=
 Definition allowed_libs : list string :=
   ["openBaseSubset."; "lua.OpenTable."; "lua.OpenMath."; "lua.OpenString."; "openOsSubset."].
 
+
+(* How the interpreter itself is configured in lStatePool.New: the lua.Options of NewState and the methods
+   called on the new state. Audited (gopher-lua v1.1.1 state.go / auxlib.go): these eight only build values,
+   register globals and call the module openers; none of them starts a goroutine, opens a library, or
+   reaches the process. NOT on the list, on purpose: SetMx (starts a watchdog goroutine that polls the heap
+   of the WHOLE PROCESS and calls os.Exit(3) above the limit: script code could then terminate the server),
+   OpenLibs (opens io, os, package, debug, channel, coroutine), SetContext on a pooled state, DoFile/DoString. *)
+Definition audited_options : list string := ["SkipOpenLibs=true"].
+Definition audited_state_methods : list string :=
+  ["CallByParam"; "CreateTable"; "Get"; "NewFunction"; "NewTable"; "SetFuncs"; "SetGlobal"; "SetMetatable"].
